@@ -27,6 +27,8 @@ pub struct Provider {
     pub n_mremap_shrink: u64,
     pub n_mremap_grow: u64,
     pub n_mremap_move: u64,
+    /// requests refused because the arena has no room left
+    pub n_exhausted: u64,
 }
 
 #[derive(Clone, Copy, PartialEq, Eq, Debug)]
@@ -64,6 +66,7 @@ impl Provider {
             n_mremap_shrink: 0,
             n_mremap_grow: 0,
             n_mremap_move: 0,
+            n_exhausted: 0,
         }
     }
 
@@ -218,7 +221,10 @@ impl Provider {
             place = Place::Isolated;
             addr = self.find_isolated(len);
         }
-        let Some(addr) = addr else { return neg(ENOMEM) };
+        let Some(addr) = addr else {
+            self.n_exhausted += 1;
+            return neg(ENOMEM);
+        };
         match place {
             Place::Above => self.n_above += 1,
             Place::Below => self.n_below += 1,
